@@ -96,7 +96,8 @@ impl Step {
     /// Perform the history (results ignored, panics reported), then the checked operation —
     /// on a small-stack thread if the step says so.
     pub fn execute(&self) -> LegReport {
-        match self.stack_kib {
+        let deep = matches!(&self.case, Case::Fmt(c) if c.sink.depth() > 4);
+        match self.stack_kib.filter(|_| !deep) {
             None => self.execute_here(),
             Some(kib) => {
                 let me = Step { stack_kib: None, ..self.clone() };
@@ -190,6 +191,11 @@ pub fn generate_run(base: u64, index: u64, st: &mut values::GenStats) -> (values
             };
             let history = history::generate(&mut r, case.leg(), v.hi, v.lo, other, spec);
             let stack_kib = if r.chance(1, 300) { Some(*r.pick(&[256u32, 2048])) } else { None };
+            // a deeply re-entrant sink needs the stack its depth asks for: keep it off the small stacks
+            let stack_kib = match &case {
+                Case::Fmt(c) if c.sink.depth() > 4 => None,
+                _ => stack_kib,
+            };
             Step { history, case, stack_kib }
         })
         .collect();
@@ -977,6 +983,8 @@ const REQUIRED_PROBES: &[&str] = &[
     "json_api_via_value",
     "json_api_via_value_ref",
     "sink_reentrant_formatting",
+    "sink_reentrant_nested",
+    "sink_reentrant_depth_over_40",
     "json_reader_behind_bufreader",
     "history_before_checked_operation",
     "fmt_with_width_or_alternate_flags",
